@@ -144,7 +144,7 @@ RAW = {"rrepart", "rsplitb", "rsplitat", "rsplice", "rrbc"}
 MIX = [(5, "new"), (2, "mk3"), (8, "repart"), (6, "splitb"), (7, "splitat"), (4, "splice"), (6, "append"), (3, "pushb"),
        (6, "subset"), (4, "subc"), (7, "reorder"), (4, "shuffle"), (2, "ushuf"), (7, "rbc"), (5, "bin"), (3, "ovr"),
        (5, "xform"), (2, "xlab"), (4, "copy"), (2, "swap"), (3, "indep"), (3, "rrepart"), (3, "rsplitb"), (3, "rsplitat"),
-       (2, "rsplice"), (2, "rrbc"), (4, "setel"), (2, "cpel"), (3, "iter"), (16, "view")]
+       (2, "rsplice"), (2, "rrbc"), (4, "setel"), (2, "cpel"), (8, "iter"), (16, "view")]
 
 
 def pick(r, allowed):
@@ -314,10 +314,19 @@ def gen_case(ctx, r, model, maxlen, allowed=None, avoid=()):
             res = emit(f"cpel {a} {r.below(n)} {r.below(n)}")
         elif kind == "iter":
             p = r.range(0, n); q = r.range(0, n)
-            if r.chance(1, 3):
-                borders = [sum(part[:i]) for i in range(len(part) + 1)]
+            borders = [sum(part[:i]) for i in range(len(part) + 1)]
+            style = r.below(4)
+            if style == 0:
                 p = r.choice(borders); q = r.choice(borders)
-            ctx.hist("iterator_jump", "zero" if q == p else "forward" if q > p else "backward")
+            elif style in (1, 2) and len(part) >= 3 and 0 not in part:
+                # a jump that skips at least one complete batch (both directions; the seeded iterator change needs a backward one)
+                bj = r.below(len(part) - 2); bi = r.range(bj + 2, len(part) - 1)
+                lo = borders[bj] + r.below(part[bj]); hi = borders[bi] + r.below(part[bi])
+                p, q = (hi, lo) if style == 1 or r.chance(1, 2) else (lo, hi)
+            def batch_of(x):
+                return next((i for i in range(len(part)) if x < borders[i + 1]), len(part))
+            ctx.hist("iterator_jump", "zero" if q == p else ("forward" if q > p else "backward") +
+                     (" skipping a batch" if abs(batch_of(p) - batch_of(q)) >= 2 else " within/adjacent"))
             res = emit(f"iter {a} {p} {q - p + 1000}")
         else:
             v = r.below(2)
